@@ -49,6 +49,20 @@ pub fn run(ctx: &Ctx) -> CheckResult {
         spaces.push(Space { cfg: Cfg::pm(Kind::Ce, n, 3.0), alphabet: tiny_b.clone(), depth: db - 1, label: "tiny bars" });
         spaces.push(Space { cfg: Cfg::p3(Kind::Macd, n, n + 2, 2), alphabet: tiny_s.clone(), depth: d, label: "tiny scalar" });
     }
+    // periods at and beyond 2^32 (legal and cheap: no window is allocated)
+    for &n in &[(1usize << 32) - 1, 1usize << 32, (1usize << 32) + 2, (1usize << 33) + 9, usize::MAX] {
+        spaces.push(Space { cfg: Cfg::p1(Kind::Ema, n), alphabet: scal_ops.clone(), depth: d - 3, label: "huge period" });
+        spaces.push(Space { cfg: Cfg::p1(Kind::Atr, n), alphabet: scal_ops.clone(), depth: d - 3, label: "huge period" });
+        spaces.push(Space { cfg: Cfg::pm(Kind::Kc, n, 2.0), alphabet: bar_ops.clone(), depth: db - 2, label: "huge period" });
+        spaces.push(Space { cfg: Cfg::p3(Kind::Macd, 3, n, 2), alphabet: scal_ops.clone(), depth: d - 3, label: "huge period" });
+        spaces.push(Space { cfg: Cfg::p3(Kind::Macd, n, 5, n), alphabet: scal_ops.clone(), depth: d - 3, label: "huge period" });
+    }
+    // negative multiplier (accepted as given): upper/lower swap sides
+    for &n in &[1usize, 3] {
+        spaces.push(Space { cfg: Cfg::pm(Kind::Kc, n, -1.0), alphabet: with_reset(scal_ops.clone()), depth: d - 2, label: "scalar" });
+        spaces.push(Space { cfg: Cfg::pm(Kind::Kc, n, -1.0), alphabet: with_reset(bar_ops.clone()), depth: db - 1, label: "bars" });
+        spaces.push(Space { cfg: Cfg::pm(Kind::Ce, n, -2.5), alphabet: with_reset(bar_ops.clone()), depth: db - 1, label: "bars" });
+    }
     // MACD triples over {1,2,3,7}^3 (equal periods and fast > slow included)
     let tri = [1usize, 2, 3, 7];
     for &a in &tri {
@@ -159,7 +173,7 @@ pub fn run(ctx: &Ctx) -> CheckResult {
         }
     }
     res.rule = "case = (configuration, operation history) replayed on a fresh real instance; output of the last op compared with the documented recursion/formula evaluated from scratch over the whole history since reset in double-double; non-trivial = history of at least 2 inputs since reset".into();
-    res.bounds = format!("seq(S_int+{{7.7,1e6}}+reset, {d}) scalar paths and seq(B_grid+reset, {db}) bar paths for periods {singles:?}, multipliers {mults:?} (side multipliers 1-2 levels shallower), the positive alphabets in a 2^-60 price unit for periods {{1,2,3,5,14}}; MACD triples over {{1,2,3,7}}^3 at depth {} plus (12,26,9),(3,1024,2); default streams of {lens} steps with <=1 deviation for periods up to 1024; very long runs (2 x 25k / 2 x 500k steps, all orderings of 2 of 5 regimes, thinned in quick) against an incremental double-double recursion for periods {{1,2,9,14,200}}", d - 2);
+    res.bounds = format!("seq(S_int+{{7.7,1e6}}+reset, {d}) scalar paths and seq(B_grid+reset, {db}) bar paths for periods {singles:?}, multipliers {mults:?} (side multipliers 1-2 levels shallower), the positive alphabets in a 2^-60 price unit for periods {{1,2,3,5,14}}; periods 2^32-1, 2^32, 2^32+2, 2^33+9, usize::MAX for EMA/ATR/KC/MACD; multipliers -1 / -2.5 for KC / CE; MACD triples over {{1,2,3,7}}^3 at depth {} plus (12,26,9),(3,1024,2); default streams of {lens} steps with <=1 deviation for periods up to 1024; very long runs (2 x 25k / 2 x 500k steps, all orderings of 2 of 5 regimes, thinned in quick) against an incremental double-double recursion for periods {{1,2,9,14,200}}", d - 2);
     res.assumptions = vec![
         "EMA state space is unbounded: depth-bounded, plus fixed long default streams".into(),
         "bar alphabets contain valid bars only (low<=close<=high): the statement's formulas are the documented ones for real bars".into(),
